@@ -8,11 +8,11 @@ from specs import graph_property
 SHARES_RESET = dict(name="Reset", d="none", v="none", w="none", f="none", t="none", n=0, res="ok")
 
 SHARES_FORMULAS = {
-    "C11": dict(invariants=["C11_SharesSum", "C11_StakeBacksShares", "C11_PaidExactly", "C11_SdkInvariants", "C11_Drainable"],
+    "C11": dict(invariants=["C11_SharesSum", "C11_StakeBacksShares", "C11_PaidExactly", "C11_RewardsFollowShares", "C11_SdkInvariants", "C11_Drainable"],
                 properties=["C11_TransferConserves", "C11_BlockedWhileReceiving", "C11_AllowanceExact", "C11_BothPaid",
-                            "C11_OnlyStakeOpsMoveStake"],
+                            "C11_EntitlementConserved", "C11_OnlyStakeOpsMoveStake"],
                 p_properties=["P_C11_TransferConserves", "P_C11_BlockedWhileReceiving", "P_C11_AllowanceExact", "P_C11_BothPaid",
-                              "P_C11_OnlyStakeOpsMoveStake"]),
+                              "P_C11_EntitlementConserved", "P_C11_OnlyStakeOpsMoveStake"]),
 }
 
 D3, V2 = ["a", "b", "c"], ["v1", "v2"]
@@ -96,6 +96,7 @@ def shares(pid):
                 "unbonding entries and redelegations do not mature between operations (the drain oracle advances time past the unbonding period on a throw-away branch and runs the staking end-blocker); the 7-entries limit is outside the bounds",
                 "the observation functions (rewards owed, inv, drain) are evaluated in the NEXT block (height + 1 on a throw-away branch, no begin-blocker) after every transition, because x/distribution skips its stake sanity check in the block in which a starting info was written; pay is evaluated in the block of the transfer", "observation registers: inv = first broken route of CrisisKeeper.Routes() (all registered staking, distribution, bank, gov, ibc-transfer invariants) evaluated on a branch after EVERY executed transition; drain = every delegator withdraws and fully undelegates everywhere, the unbonding period passes, the staking end-blocker matures the entries, each account receives exactly its unbonding balances, invariants again; pay = for both parties of a transfer: balance delta = rewards owed before - rewards owed after (distribution query); all three are projected into the state and decided by TLC formulas",
                 "inv and drain are memoised on a digest of the staking, distribution, bank, gov, ibc-transfer, mint, slashing and params stores plus block height and time (byte-identical inputs give the same result; account nonces and EVM state are assumed irrelevant to them)",
+                "reward entitlement (state variable accrued[d][v] = number of reward blocks earned and not yet paid): the rewards one share of a validator earns in each reward block are measured on a reference delegation that no modelled operation touches (the validator's genesis self-delegation, whose owed rewards are recorded on the branch after every RewardTick); what the real distribution module owes a delegation (query in the next block) is projected to the number j of most recent reward blocks with owed = current shares * rewards per share of those j blocks (tolerance 1e-9 relative + 1e-16 base units for F1's truncations), and to -1 when no whole number of blocks fits; the SDK's F1 computation for the untouched reference delegation is trusted",
                 "projection: delegations, validators, unbonding delegations, redelegations through the SDK staking keeper's getters (plain store reads), allowances by raw read of the fx staking store (prefix 0x90), rewards through the distribution querier on a branch",
             ])
     return run
@@ -105,6 +106,6 @@ specs.REGISTRY["C11"] = shares("C11")
 
 specs.MANIFEST.update({
  "C11": dict(category="model_checking", technique="TLA+ spec Shares.tla: TLC exhaustive model check + replay of every TLC-generated transition as real EVM transactions to the staking precompile on a chain with real staking/distribution/mint/slashing + TLC evaluation of the C11 formulas (incl. SDK crisis invariants, reward pay-out equation and full-drain availability observed on the real state) on recorded real behaviours",
-             text="Shares.tla models delegations of three accounts at two validators, allowances, accrued-reward flags, incoming redelegations, unbonding balances and the validators' shares/tokens/exchange rate under delegateV2, undelegateV2, redelegateV2, withdraw, approveShares, transferShares (including to oneself, full and partial, new and existing recipient), transferFromShares, reward-producing blocks and a 50% validator slash; a second family runs on a validator slashed by 10% where delegations hold fractional shares (projected exactly) and whole shares are transferred. TLC checks on all bounded interleavings: shares sum to the validator's total, tokens back shares at the exchange rate, a transfer moves exactly n from sender to recipient (identity for sender = recipient) and never changes validator totals / unbonding / redelegations, transferFrom spends exactly the amount of an allowance that covers it, the sender has no incoming redelegation, both parties are paid. Every generated transition is executed as a real EVM transaction on a branch of the real multistore and the projected state compared; after every transition the registered crisis invariants, the reward pay-out equation of the step and a full drain (everyone withdraws and fully undelegates, entries mature, invariants again) are evaluated on the real state and projected into the state, so that TLC decides them on the recorded real behaviours.",
+             text="Shares.tla models delegations of three accounts at two validators, allowances, reward entitlements (number of reward blocks a delegation earned on its current shares and has not been paid, measured against an untouched reference delegation of the same validator), incoming redelegations, unbonding balances and the validators' shares/tokens/exchange rate under delegateV2, undelegateV2, redelegateV2, withdraw, approveShares, transferShares (including to oneself, full and partial, new and existing recipient), transferFromShares, reward-producing blocks and a 50% validator slash; a second family runs on a validator slashed by 10% where delegations hold fractional shares (projected exactly) and whole shares are transferred. TLC checks on all bounded interleavings: shares sum to the validator's total, tokens back shares at the exchange rate, a transfer moves exactly n from sender to recipient (identity for sender = recipient) and never changes validator totals / unbonding / redelegations, transferFrom spends exactly the amount of an allowance that covers it, the sender has no incoming redelegation, both parties are paid, what a delegation is owed is always what its current shares earned over a whole number of reward blocks (staking and distribution bookkeeping agree), and entitlements are conserved (a reward block adds exactly one block on the shares held, no operation changes the entitlement of a delegation it does not act on). Every generated transition is executed as a real EVM transaction on a branch of the real multistore and the projected state compared; after every transition the registered crisis invariants, the reward pay-out equation of the step and a full drain (everyone withdraws and fully undelegates, entries mature, invariants again) are evaluated on the real state and projected into the state, so that TLC decides them on the recorded real behaviours.",
              note="bounded: 3 externally-owned delegators, 2 validators, amounts 1-2 units of 100 FX, <=3 (quick) / <=4 (thorough) accepted operations plus one arbitrary further operation, <=2 reward blocks, one 50% slash per validator at the current height (no slashing of unbonding entries/redelegations), a 10% slash only while the world is built (fractional-share family: delegate, withdraw, approve, transfer, transferFrom, reward block), no maturing between operations; all rejected operations executed in quick and in thorough A/B, 10 sampled per state in thorough C/F; trusted: TLC, the projection (SDK getters + raw allowance reads), the SDK's own invariants as oracle", ref="5 (C11)"),
 })
